@@ -17,7 +17,7 @@ pub fn def() -> PropDef {
         streams,
         run,
         floors,
-        rule: "fault injection: a control message is built from k AVP records, a chosen subset made individually undecodable by one named fault each (truncated payload, bad UTF-8, unassigned attribute, unknown message-type code at a non-first position, bad error type, vendor id != 0, bad proxy authen type) or given an unusable length (< 6, or past the body). Every placement of every fault kind for k <= 4 is enumerated, k <= 8 sampled. Expected: Ok(all k values in order) iff no fault and the first record is a Message Type; otherwise Err(non-empty); with a valid Message Type first the list has exactly one error per faulty record up to and including the first unusable length, each of the expected class, in wire order. Distinct = distinct messages; non-trivial = at least one fault or k >= 2. Also: 4095..10900 minimal records in front of the faulty ones.",
+        rule: "fault injection: a control message is built from k AVP records, a chosen subset made individually undecodable by one named fault each (truncated payload, bad UTF-8, unassigned attribute, unknown message-type code at a non-first position, bad error type, vendor id != 0, bad proxy authen type) or given an unusable length (< 6, or past the body). Every placement of every fault kind for k <= 4 is enumerated, k <= 8 sampled. Expected: Ok(all k values in order) iff no fault and the first record is a Message Type; otherwise Err(non-empty); with a valid Message Type first the list has exactly one error per faulty record up to and including the first unusable length, each of the expected class, in wire order. Distinct = distinct messages; non-trivial = at least one fault or k >= 2. Also: 4095..10900 minimal records in front of the faulty ones; 40..80 records decoded from a slow transport (2.5 s of wall-clock time per decode in quick, up to 31 s in thorough) must give the same verdict and error list.",
     }
 }
 
@@ -25,14 +25,14 @@ const N_FAULTS: u64 = 9;
 
 fn streams(t: Tier) -> Vec<StreamDef> {
     // enumerated: k in 1..=4, fault kind per position in 0..=N_FAULTS (0 = none) -> (N+1)^4 * 4 upper bound
-    vec![st("enumerated", t.n(50_000, 50_000, 100, 50_000), true), st("sampled", t.n(40_000, 2_000_000, 60, 10_000), false), st("first_not_type", t.n(5_000, 200_000, 30, 2_000), false), st("many_records", t.n(96, 2000, 0, 96), false), st("fault_counts", t.n(64, 1200, 0, 64), false)]
+    vec![st("enumerated", t.n(50_000, 50_000, 100, 50_000), true), st("sampled", t.n(40_000, 2_000_000, 60, 10_000), false), st("first_not_type", t.n(5_000, 200_000, 30, 2_000), false), st("many_records", t.n(96, 2000, 0, 96), false), st("fault_counts", t.n(64, 1200, 0, 64), false), st("slow_reader", t.n(16, 64, 0, 16), false)]
 }
 
 fn floors(t: Tier) -> Vec<(String, u64)> {
     if t == Tier::Miri {
         return vec![("judged".into(), 50)];
     }
-    let mut f: Vec<(String, u64)> = vec![("judged".into(), 30_000), ("expected.ok".into(), 1000), ("expected.err".into(), 20_000), ("errors.matched".into(), 30_000), ("multi_error_lists".into(), 5_000), ("zlb".into(), 10), ("stop_at_unusable_length".into(), 2000), ("many_records".into(), 50), ("fault_counts".into(), 30), ("reentrant_reader.compared".into(), 10_000)];
+    let mut f: Vec<(String, u64)> = vec![("judged".into(), 30_000), ("expected.ok".into(), 1000), ("expected.err".into(), 20_000), ("errors.matched".into(), 30_000), ("multi_error_lists".into(), 5_000), ("zlb".into(), 10), ("stop_at_unusable_length".into(), 2000), ("many_records".into(), 50), ("fault_counts".into(), 30), ("slow_reader.compared".into(), 8), ("reentrant_reader.compared".into(), 10_000)];
     for k in 1..=N_FAULTS {
         f.push((format!("fault.{}", k), 500));
     }
@@ -213,6 +213,27 @@ fn judge(ctx: &mut Ctx, mut recs: Vec<Rec>) {
             return;
         }
     }
+    // the same message through a reader on a slow transport (the decode takes seconds of wall-clock
+    // time): same verdict, same error list
+    if ctx.stream == "slow_reader" {
+        let base = exec::decode_msg(&msg, Some(SOpts::STRICT), Rk::Slice);
+        let total_us: u64 = if ctx.tier == Tier::Thorough { *ctx.rng.pick(&[2_500_000u64, 6_000_000, 12_000_000, 31_000_000]) } else { 2_500_000 };
+        // about two delayed calls per record (its payload window, and bytes() for variable kinds)
+        let per_call = total_us / (2 * recs.len() as u64 + 2);
+        let t0 = std::time::Instant::now();
+        let slow = exec::decode_msg(&msg, Some(SOpts::STRICT), Rk::Slow(per_call));
+        let took = t0.elapsed().as_secs_f64();
+        ctx.rep.bucket("slow_reader.compared");
+        ctx.rep.bucket(if took >= 30.0 { "slow_reader.took_ge_30s" } else if took >= 10.0 { "slow_reader.took_ge_10s" } else if took >= 5.0 { "slow_reader.took_ge_5s" } else if took >= 2.0 { "slow_reader.took_ge_2s" } else { "slow_reader.took_lt_2s" });
+        if !same_out(&base.out, &slow.out) && !base.out.abnormal() {
+            ctx.violate(
+                format!("C15:result-changes-with-slow-reader:{}-vs-{}", slow.out.class(), base.out.class()),
+                format!("decoded through a reader whose calls take {} us each ({:.1} s in all), the result is {} instead of {}", per_call, took, out_str(&slow.out), out_str(&base.out)),
+                wit.clone(),
+            );
+            return;
+        }
+    }
     for o in [SOpts::STRICT, SOpts::NONE] {
         let run = exec::decode_msg(&msg, Some(o), Rk::Slice);
         match &run.out {
@@ -351,6 +372,20 @@ fn run(ctx: &mut Ctx) {
                 let f = ctx.rng.range(1, 7);
                 recs.push(faulty(&mut ctx.rng, f));
                 if ctx.rng.bool() {
+                    recs.push(good(&mut ctx.rng, false));
+                }
+            }
+            judge(ctx, recs);
+        }
+        "slow_reader" => {
+            // 40..80 records, a few of them faulty, decoded from a slow transport
+            let n = ctx.rng.range(40, 80) as usize;
+            let mut recs = vec![good(&mut ctx.rng, true)];
+            for _ in 0..n {
+                if ctx.rng.chance(1, 12) && ctx.idx % 3 != 0 {
+                    let f = ctx.rng.range(1, 7);
+                    recs.push(faulty(&mut ctx.rng, f));
+                } else {
                     recs.push(good(&mut ctx.rng, false));
                 }
             }
